@@ -22,10 +22,15 @@ RULE = ("histories: all op sequences of length <= L (quick 4, thorough 5) over {
         "Non-trivial = the history contains >= 2 calls with different targets; distinct = distinct (shape, op list)")
 SHAPES = ((4, 4, 16), (3, 1, 8), (1, 5, 32))
 DM0, P0 = 30.0, 0.1
+# observation geometry of the current case: the default one, or a dyadic one (period 1 s, 64 s of data, 32 bins) in which period
+# drifts of whole and exactly half bins occur, so that round-half-even decisions are exercised with exact arithmetic
+_cfg = {"P0": P0, "tsamp": 1e-3, "nsamples": 100000}
+DYADIC = {"P0": 1.0, "tsamp": 2.0 ** -10, "nsamples": 65536}
+DYADIC_SHAPES = ((4, 1, 32), (8, 2, 32))
 
 
 def REQUIRED(tier):
-    return ["histories", "hook_checks", "rotation_checks", "law:repeat_noop", "law:return_restores", "law:history_independence", "ops:update_dm", "ops:update_period", "shape:single_subband", "shape:single_subint", "layout:F", "layout:transposed_view", "layout:strided_view"]
+    return ["histories", "hook_checks", "rotation_checks", "law:repeat_noop", "law:return_restores", "law:history_independence", "ops:update_dm", "ops:update_period", "shape:single_subband", "shape:single_subint", "layout:F", "layout:transposed_view", "layout:strided_view", "dyadic_histories", "exact_half_bin_states"]
 
 
 def EXHAUSTIVE(tier):
@@ -47,6 +52,9 @@ def cases(tier, seed):
     rng = np.random.default_rng([seed, 1717])
     for k in range(100 if tier == "quick" else 2000):
         yield {"kind": "random", "shape": int(rng.integers(0, 3)), "hseed": int(seed) * 100003 + k, "len": 50, "layout": LAYOUTS[k % 4]}
+    for si in range(len(DYADIC_SHAPES)):
+        for first in range(8):
+            yield {"kind": "dyadic", "shape": si, "first": first}
     for si in range(len(SHAPES)):      # the length-2 lattice again on non-contiguous cubes
         for lay in LAYOUTS[1:]:
             for first in range(len(A)):
@@ -57,7 +65,7 @@ def cases(tier, seed):
 def _hdr():
     from sigpyproc.header import Header
 
-    return Header(filename="x.fil", data_type="filterbank", nchans=64, foff=-1.0, fch1=400.0, nbits=8, tsamp=1e-3, tstart=58000.0, nsamples=100000)
+    return Header(filename="x.fil", data_type="filterbank", nchans=64, foff=-1.0, fch1=400.0, nbits=8, tsamp=_cfg["tsamp"], tstart=58000.0, nsamples=_cfg["nsamples"])
 
 
 LAYOUTS = ("C", "F", "transposed_view", "strided_view")
@@ -83,7 +91,7 @@ def _cube(shape):
         big = np.zeros((nint * 2, nband, nbins), dtype=np.float32)
         big[::2] = base
         arr = big[::2]
-    return FoldedData(arr, _hdr(), P0, DM0), base
+    return FoldedData(arr, _hdr(), _cfg["P0"], DM0), base
 
 
 def _acceptable(v):
@@ -102,12 +110,12 @@ def ref_shifts(shape, dm, period, visited_periods):
     A = []
     for j in range(nband):
         acc = set()
-        for px in {P0}:  # bin width of the folding period: the shift is a function of the targets only
+        for px in {_cfg["P0"]}:  # bin width of the folding period: the shift is a function of the targets only
             v = refmodels.dm_delay_exact(np.float32(freqs[j]), dm - DM0, px / nbins, h.fch1)
             acc |= _acceptable(float(v))
         A.append(acc)
     tobs = h.tsamp * h.nsamples
-    dbins = (period / P0 - 1) * tobs * nbins / P0
+    dbins = (period / _cfg["P0"] - 1) * tobs * nbins / _cfg["P0"]
     B = [_acceptable(i * dbins / nint) for i in range(nint)]
     return A, B
 
@@ -121,6 +129,10 @@ def check_state(ctx, fd, base, shape, dm, period, visited, rec, step):
         ctx.violation("reported-values", f"step {step}: cube reports dm={fd.dm!r} period={fd.period!r}, last requested dm={dm!r} period={period!r}", rec)
         return False
     A, B = ref_shifts(shape, dm, period, visited)
+    tobs_ = _hdr().tsamp * _hdr().nsamples
+    db_ = (period / _cfg["P0"] - 1) * tobs_ * nbins / _cfg["P0"]
+    if any((i * db_ / nint) % 1 == 0.5 for i in range(nint)):
+        ctx.count("exact_half_bin_states")
     amb = any(len(a) > 1 for a in A) or any(len(b) > 1 for b in B)
     if amb:
         ctx.count("ambiguous_rounding_states")
@@ -144,6 +156,7 @@ def check_state(ctx, fd, base, shape, dm, period, visited, rec, step):
 
 def run_history(ctx, shape, ops, rec):
     fd, base = _cube(shape)
+    P0 = _cfg["P0"]
     dm, period = DM0, P0
     visited = [P0]
     ctx.evaluated(); ctx.count("histories")
@@ -196,7 +209,28 @@ def run_history(ctx, shape, ops, rec):
     return True
 
 
+def dyadic_alphabet():
+    P = DYADIC["P0"]
+    return [("p", P), ("p", P * (1 + 1 / 2048)), ("p", P * (1 + 2 / 2048)), ("p", P * (1 + 3 / 2048)), ("p", P * (1 + 5 / 2048)), ("p", P * (1 - 2 / 2048)), ("dm", DM0), ("dm", DM0 + 5)]
+
+
 def run_case(case, ctx):
+    _cfg.update({"P0": P0, "tsamp": 1e-3, "nsamples": 100000})
+    if case["kind"] == "dyadic" or case.get("dyadic"):
+        _cfg.update(DYADIC)
+        _layout["cur"] = "C"
+        shape = DYADIC_SHAPES[case["shape"]]
+        if case["kind"] == "history":
+            run_history(ctx, shape, [tuple(o) for o in case["ops"]], case)
+            return
+        A = dyadic_alphabet()
+        for ln in range(0, 3):
+            for tail in itertools.product(range(len(A)), repeat=ln):
+                ops = [A[case["first"]]] + [A[i] for i in tail]
+                ctx.count("dyadic_histories")
+                rec = {"kind": "history", "dyadic": True, "shape": case["shape"], "ops": [list(o) for o in ops]}
+                run_history(ctx, shape, ops, rec)
+        return
     _layout["cur"] = case.get("layout", "C")
     ctx.count(f"layout:{_layout['cur']}")
     shape = SHAPES[case["shape"]]
